@@ -34,6 +34,7 @@ fn crash_cfg(prop: &str, seed: u64, index: u64) -> HistCfg {
         force_two_fats: false,
         fsinfo: None,
         full_dir: edge,
+        mini_deadline: None,
     }
 }
 
